@@ -266,6 +266,17 @@ impl FileReader for IOFileReader {
                 .to_owned()
         };
 
+        // A file is read at most once; this is also what stops a file from
+        // including itself, directly or through other files
+        let path = PathBuf::from(&path)
+            .canonicalize()
+            .ok()
+            .and_then(|full| full.to_str().map(str::to_owned))
+            .unwrap_or(path);
+        if self.files.values().any(|(read_path, _)| *read_path == path) {
+            return Err(FileReaderError::FileAlreadyRead(path));
+        }
+
         // open file and read it
         let file = match std::fs::read_to_string(path.clone()) {
             Ok(file) => file,
@@ -275,13 +286,7 @@ impl FileReader for IOFileReader {
         // store full path to file
         let uuid = uuid::Uuid::new_v4();
         self.base_file.get_or_insert(uuid);
-        if self
-            .files
-            .insert(uuid, (path.clone(), file.clone()))
-            .is_some()
-        {
-            return Err(FileReaderError::FileAlreadyRead(path));
-        }
+        self.files.insert(uuid, (path.clone(), file.clone()));
 
         Ok((uuid, file))
     }
